@@ -1,12 +1,792 @@
-//! C11 — stub (not built yet).
+//! C11 — polynomial arithmetic, including FFT products, matches coefficient algebra.
+//!
+//! Reference model: exact coefficient algebra in the harness (compensated convolution: every
+//! reference coefficient is correct to one rounding). Monitors: every owned / borrowed /
+//! assigning operator form of `+ - * /` and `neg`, the scalar / linear / FFT multiplication
+//! paths, degree of the product, commutativity, pointwise agreement, `dft` against direct
+//! evaluation at the roots of unity and `idft(dft(p)) = p`; all for f64 and Complex<f64>.
+
+#[path = "c11/polyref.rs"]
+mod polyref;
+
+use crate::json::J;
+use crate::probe::{guard, Guarded};
 use crate::report::*;
+use crate::rng::{CaseHash, Rng};
+use bacon_sci::polynomial::Polynomial;
+use polyref::*;
+
+// ---- frozen constants (observed maxima are recorded in the evidence under the same names) ----
+/// `+`, `-`: |c_k - (a_k ± b_k)| <= K·eps·(|a_k|+|b_k|)                      (observed 0: one IEEE operation)
+const K_ADDSUB: f64 = 4.0;
+/// scalar `*`: |c_k - a_k s| <= K·eps·|a_k||s|                                (observed 1.13 complex, 0 real)
+const K_SCALAR_MUL: f64 = 8.0;
+/// scalar `/`: |c_k - a_k/s| <= K·eps·|a_k|/|s|                               (observed 2.92 complex, 0 real)
+const K_SCALAR_DIV: f64 = 16.0;
+/// products: |c_k - exact_k| <= K·eps·log2(N)·||a||_2·||b||_2 (+ tolerance for purged leading terms);
+/// N = transform length for the FFT path (2 otherwise). Observed 6.70 (FFT, sparse operands: the
+/// library builds its twiddle factors by repeated multiplication, so their error grows like
+/// N·eps/4 and does not average out when single coefficients carry the norm; the analytic worst
+/// case for N = 512 is about 40 units), 1.20 linear and 1.02 scalar path. DESIGN.md proposed 16 from
+/// dense operands only (1.12 there).
+const K_PRODUCT: f64 = 64.0;
+/// (a*b)(x) vs a(x)b(x), |x| <= 1: <= K·(n+1)·eps·(log2(N)||a||_2||b||_2 + ||a||_1||b||_1) + (n+1)·tolerance (observed 0.36)
+const K_POINTWISE: f64 = 16.0;
+/// dft(size)[k] vs direct evaluation at exp(2 pi i k/N): <= K·eps·log2(N)·||c||_1     (observed 13.7)
+const K_DFT: f64 = 128.0;
+/// idft(dft(p)) vs p: <= K·eps·log2(N)·||c||_1 (+ tolerance for purged leading terms)  (observed 7.9)
+const K_IDFT: f64 = 64.0;
 
 pub fn meta() -> CheckMeta {
-    CheckMeta { id: "C11", level: "exploration", rule: "stub".into(), assumptions: vec![], exhaustive: false, stuck_is_violation: false }
+    CheckMeta {
+        id: "C11",
+        level: "exploration",
+        rule: "cases: operand pairs from G-poly (degree 0..128, |c| in 1e-3..1e3, dense / sparse / palindromic / x^n-c / from roots / integer, leading and trailing zeros, leading terms straddling the zero tolerance), real and complex, every case run through all 6 forms of + - * (a?b, &a?b, a?&b, &a?&b, a?=b, a?=&b), both neg forms, all 3 forms of scalar + - * /, b*a and pointwise evaluation; dft cases: size from the coefficient count up to 1024. A pair case counts as non-trivial once when its product went through the FFT path (both operands have >= 3 stored coefficients); a pair on the scalar/linear path counts once per operator form executed on it; every dft case is non-trivial (hash of operands / polynomial+size)".into(),
+        assumptions: vec![
+            "reference coefficients come from compensated (twice working precision) convolution in the harness; dft reference values from compensated direct summation with exactly reduced twiddle factors".into(),
+            "the zero tolerance is allowed only on coefficients the result has dropped (index above order() of the result): kept coefficients must meet the pure rounding bound".into(),
+            "degree statement: order(a*b) <= order(a)+order(b) is required for every tolerance (exact algebra has no coefficient above the sum of the stored orders, so anything there is FFT noise that became a leading term - defect D28 of DESIGN.md); equality is required only when the larger component of the exact leading coefficient exceeds tolerance + rounding bound, i.e. when it cannot legitimately have been purged".into(),
+            "dft convention: entry k is the value at exp(+2 pi i k/N), N = smallest power of two >= size; only sizes >= coefficient count are used".into(),
+        ],
+        exhaustive: false,
+        stuck_is_violation: false,
+    }
 }
-pub fn stages(_ctx: &Ctx) -> Vec<Stage> {
-    vec![]
+
+// ------------------------------------------------------------------ pair cases
+
+#[derive(Clone)]
+struct Pair {
+    complex: bool,
+    a: Vec<C64>,
+    b: Vec<C64>,
+    tol_a: Option<f64>,
+    tol_b: Option<f64>,
+    from_slice: bool,
+    s: C64,
+    xs: Vec<C64>,
+    shape_a: String,
+    shape_b: String,
 }
-pub fn thresholds(_ctx: &Ctx, _rep: &Report) -> Vec<Threshold> {
-    vec![Threshold { what: "check not built".into(), required: 1.0, observed: 0.0 }]
+
+impl Pair {
+    fn to_json(&self) -> J {
+        J::obj()
+            .set("field", field_name(self.complex))
+            .set("a", pj(self.complex, &self.a))
+            .set("b", pj(self.complex, &self.b))
+            .set("tolerance_a", tolj(self.tol_a))
+            .set("tolerance_b", tolj(self.tol_b))
+            .set("built_with", if self.from_slice { "from_slice (coefficients reversed)" } else { "collect() (ascending)" })
+            .set("scalar", cj(self.s))
+            .set("points", J::Arr(self.xs.iter().map(|x| cj(*x)).collect()))
+            .set("shape_a", self.shape_a.as_str())
+            .set("shape_b", self.shape_b.as_str())
+    }
+    fn hash(&self) -> CaseHash {
+        let h = CaseHash::new("c11-pair").u(self.complex as u64);
+        let h = hash_poly(hash_poly(h, &self.a), &self.b);
+        h.f(self.tol_a.unwrap_or(-1.0)).f(self.tol_b.unwrap_or(-1.0)).f(self.s.re).f(self.s.im)
+    }
+}
+
+struct Cmp {
+    worst: f64,
+    bad: Option<String>,
+}
+
+/// Compare every readable coefficient of `p` with `exp`: kept coefficients (index <= order) to
+/// `k·unit(i)`, dropped ones (index > order) additionally get the zero-tolerance allowance.
+fn cmp_coeffs<N: Sc>(p: &Polynomial<N>, exp: &[C64], unit: &dyn Fn(usize) -> f64, k: f64, allow: f64) -> Cmp {
+    let mut out = Cmp { worst: 0.0, bad: None };
+    // reading the result back is a library call too
+    let read = guard(|| {
+        let order = p.order();
+        let top = exp.len().max(order + 1) + 2;
+        (order, (0..top).map(|i| p.get_coefficient(i).to_c()).collect::<Vec<C64>>())
+    });
+    let (order, gots) = match read {
+        Guarded::Ok(v) => v,
+        Guarded::Panic(m, l) => {
+            out.worst = f64::INFINITY;
+            out.bad = Some(format!("reading order()/get_coefficient(i) of the result panicked: '{}' at {}", m, l));
+            return out;
+        }
+        Guarded::Budget => return out,
+    };
+    for (i, got) in gots.iter().enumerate() {
+        let got = *got;
+        let e = exp.get(i).copied().unwrap_or(C64::new(0.0, 0.0));
+        let err = (got - e).norm();
+        let al = if i > order { allow } else { 0.0 };
+        let u = unit(i);
+        let excess = err - al;
+        let ratio = if excess <= 0.0 {
+            0.0
+        } else if u > 0.0 {
+            excess / u
+        } else {
+            f64::INFINITY
+        };
+        if ratio > out.worst || ratio.is_nan() {
+            out.worst = if ratio.is_nan() { f64::INFINITY } else { ratio };
+        }
+        if !(err <= k * u + al) && out.bad.is_none() {
+            out.bad = Some(format!(
+                "coefficient of x^{}: got {:e}{:+e}i, exact {:e}{:+e}i, |difference| {:e} > bound {:e} (= {}·unit {:e} + dropped-term allowance {:e}); order of result {}",
+                i, got.re, got.im, e.re, e.im, err, k * u + al, k, u, al, order
+            ));
+        }
+    }
+    out
+}
+
+type Forms<N> = Vec<(&'static str, Guarded<Polynomial<N>>)>;
+
+macro_rules! bin_forms {
+    ($name:ident, $op:tt, $opa:tt, $sym:expr) => {
+        fn $name<N: Sc>(a: &Polynomial<N>, b: &Polynomial<N>) -> Forms<N> {
+            vec![
+                (concat!("a", $sym, "b"), guard(|| a.clone() $op b.clone())),
+                (concat!("&a", $sym, "b"), guard(|| a $op b.clone())),
+                (concat!("a", $sym, "&b"), guard(|| a.clone() $op b)),
+                (concat!("&a", $sym, "&b"), guard(|| a $op b)),
+                (concat!("a", $sym, "=b"), guard(|| {
+                    let mut x = a.clone();
+                    x $opa b.clone();
+                    x
+                })),
+                (concat!("a", $sym, "=&b"), guard(|| {
+                    let mut x = a.clone();
+                    x $opa b;
+                    x
+                })),
+            ]
+        }
+    };
+}
+bin_forms!(add_forms, +, +=, "+");
+bin_forms!(sub_forms, -, -=, "-");
+bin_forms!(mul_forms, *, *=, "*");
+
+macro_rules! scalar_forms {
+    ($name:ident, $op:tt, $opa:tt, $sym:expr) => {
+        fn $name<N: Sc>(a: &Polynomial<N>, s: N) -> Forms<N> {
+            vec![
+                (concat!("a", $sym, "s"), guard(|| a.clone() $op s)),
+                (concat!("&a", $sym, "s"), guard(|| a $op s)),
+                (concat!("a", $sym, "=s"), guard(|| {
+                    let mut x = a.clone();
+                    x $opa s;
+                    x
+                })),
+            ]
+        }
+    };
+}
+scalar_forms!(sadd_forms, +, +=, "+");
+scalar_forms!(ssub_forms, -, -=, "-");
+scalar_forms!(smul_forms, *, *=, "*");
+scalar_forms!(sdiv_forms, /, /=, "/");
+
+fn neg_forms<N: Sc>(a: &Polynomial<N>) -> Forms<N> {
+    vec![("-a", guard(|| -a.clone())), ("-&a", guard(|| -a))]
+}
+
+/// Run one group of operator forms against the exact coefficients.
+#[allow(clippy::too_many_arguments)]
+fn judge_forms<N: Sc>(rep: &mut Report, c: &Pair, op: &str, forms: Forms<N>, exp: &[C64], unit: &dyn Fn(usize) -> f64, k: f64, allow: f64, maxname: &str, ntriv: bool) -> Vec<Option<Polynomial<N>>> {
+    let mut out = vec![];
+    for (form, g) in forms {
+        rep.eval();
+        rep.count(&format!("form/{}", form), 1);
+        match g {
+            Guarded::Ok(p) => {
+                let cmp = cmp_coeffs(&p, exp, unit, k, allow);
+                rep.max(maxname, cmp.worst);
+                if let Some(d) = cmp.bad {
+                    rep.violation(&format!("{}/coefficients", op), c.to_json().set("form", form), format!("{} ({}): {}", form, N::NAME, d));
+                } else if ntriv {
+                    rep.nontrivial(c.hash().s(form).0);
+                }
+                out.push(Some(p));
+            }
+            Guarded::Panic(m, l) => {
+                rep.violation(&format!("{}/panic", op), c.to_json().set("form", form), format!("{} ({}) panicked: '{}' at {}", form, N::NAME, m, l));
+                out.push(None);
+            }
+            Guarded::Budget => out.push(None),
+        }
+    }
+    out
+}
+
+fn run_pair<N: Sc>(rep: &mut Report, c: &Pair) {
+    let zero = C64::new(0.0, 0.0);
+    let (la, lb) = (c.a.len(), c.b.len());
+    let pa: Polynomial<N> = build(&c.a, c.tol_a, c.from_slice);
+    let pb: Polynomial<N> = build(&c.b, c.tol_b, c.from_slice);
+    let ta = c.tol_a.unwrap_or(DEFAULT_TOL);
+    let tb = c.tol_b.unwrap_or(DEFAULT_TOL);
+    let allow_a = tol_allow(c.complex, ta);
+    let allow_b = tol_allow(c.complex, tb);
+    let fld = N::NAME;
+    let path = if la == 1 || lb == 1 {
+        "scalar"
+    } else if la == 2 || lb == 2 {
+        "linear"
+    } else {
+        "fft"
+    };
+    let small = path != "fft";
+    let at = |v: &[C64], i: usize| v.get(i).copied().unwrap_or(zero);
+    let lmax = la.max(lb);
+
+    // ---- sums, differences, negation
+    let add_exp: Vec<C64> = (0..lmax).map(|i| at(&c.a, i) + at(&c.b, i)).collect();
+    let sub_exp: Vec<C64> = (0..lmax).map(|i| at(&c.a, i) - at(&c.b, i)).collect();
+    let neg_exp: Vec<C64> = c.a.iter().map(|v| -*v).collect();
+    let u_add = |i: usize| EPS * (at(&c.a, i).norm() + at(&c.b, i).norm());
+    judge_forms(rep, c, "add", add_forms(&pa, &pb), &add_exp, &u_add, K_ADDSUB, allow_a, "addsub_err_over_eps(|a_k|+|b_k|)", small);
+    judge_forms(rep, c, "sub", sub_forms(&pa, &pb), &sub_exp, &u_add, K_ADDSUB, allow_a, "addsub_err_over_eps(|a_k|+|b_k|)", small);
+    let u_neg = |i: usize| EPS * at(&c.a, i).norm();
+    judge_forms(rep, c, "neg", neg_forms(&pa), &neg_exp, &u_neg, K_ADDSUB, allow_a, "addsub_err_over_eps(|a_k|+|b_k|)", small);
+
+    // ---- scalar forms
+    let s = c.s;
+    let sn = N::from_c(s);
+    let sadd_exp: Vec<C64> = c.a.iter().enumerate().map(|(i, v)| if i == 0 { *v + s } else { *v }).collect();
+    let ssub_exp: Vec<C64> = c.a.iter().enumerate().map(|(i, v)| if i == 0 { *v - s } else { *v }).collect();
+    let u_sadd = |i: usize| if i == 0 { EPS * (c.a[0].norm() + s.norm()) } else { 0.0 };
+    judge_forms(rep, c, "scalar-add", sadd_forms(&pa, sn), &sadd_exp, &u_sadd, K_ADDSUB, allow_a, "addsub_err_over_eps(|a_k|+|b_k|)", small);
+    judge_forms(rep, c, "scalar-sub", ssub_forms(&pa, sn), &ssub_exp, &u_sadd, K_ADDSUB, allow_a, "addsub_err_over_eps(|a_k|+|b_k|)", small);
+    let smul_exp: Vec<C64> = c.a.iter().map(|v| cmul_exact(*v, s)).collect();
+    let u_smul = |i: usize| EPS * at(&c.a, i).norm() * s.norm();
+    judge_forms(rep, c, "scalar-mul", smul_forms(&pa, sn), &smul_exp, &u_smul, K_SCALAR_MUL, allow_a, &format!("scalar_mul_err_over_eps|a_k||s|/{}", fld), small);
+    if s.norm() > 0.0 {
+        let sdiv_exp: Vec<C64> = c.a.iter().map(|v| cdiv_ref(*v, s)).collect();
+        let u_sdiv = |i: usize| EPS * at(&c.a, i).norm() / s.norm();
+        judge_forms(rep, c, "scalar-div", sdiv_forms(&pa, sn), &sdiv_exp, &u_sdiv, K_SCALAR_DIV, allow_a, &format!("scalar_div_err_over_eps|a_k|/|s|/{}", fld), small);
+    }
+
+    // ---- products
+    let exact = conv_exact(&c.a, &c.b);
+    let dsum = la + lb - 2;
+    let log2n = if small { 1.0 } else { (nextpow2(2 * lmax) as f64).log2() };
+    let (na2, nb2) = (norm2(&c.a), norm2(&c.b));
+    let u = EPS * log2n * na2 * nb2;
+    let u_mul = |_i: usize| u;
+    let sig = |what: &str| format!("{}/{}", path, what);
+    rep.count(&format!("mul/{}/{}", path, fld), 1);
+    let maxname = format!("{}_product_err_over_eps.log2N.|a|2.|b|2/{}", path, fld);
+    let forms = mul_forms(&pa, &pb);
+    let mut prods: Vec<(&'static str, Option<Polynomial<N>>)> = vec![];
+    let lead = exact[dsum];
+    let lead_survives = cinf(lead) > ta + K_PRODUCT * u;
+    for (form, g) in forms {
+        rep.eval();
+        rep.count(&format!("form/{}", form), 1);
+        match g {
+            Guarded::Ok(p) => {
+                let cmp = cmp_coeffs(&p, &exact, &u_mul, K_PRODUCT, allow_a);
+                rep.max(&maxname, cmp.worst);
+                let mut ok = true;
+                if let Some(d) = cmp.bad {
+                    ok = false;
+                    let unreadable = d.starts_with("reading order()");
+                    rep.violation(&sig("product-coefficients"), c.to_json().set("form", form), format!("{} ({}, N-unit log2N={}): {}", form, fld, log2n, d));
+                    if unreadable {
+                        prods.push((form, None));
+                        continue;
+                    }
+                }
+                let o = p.order();
+                if o > dsum {
+                    ok = false;
+                    let regime = if ta > K_PRODUCT * u { "tolerance above the rounding bound" } else { "tolerance below the rounding bound" };
+                    rep.count(&format!("degree/exceeds-sum ({})", regime), 1);
+                    rep.violation(
+                        &sig("product-degree"),
+                        c.to_json().set("form", form),
+                        format!("{} ({}): order of the product is {} but order(a)+order(b) = {}: |coefficient of x^{}| = {:e} is not a term of the exact product (tolerance {:e}, {})", form, fld, o, dsum, o, p.get_coefficient(o).to_c().norm(), ta, regime),
+                    );
+                } else if lead_survives {
+                    rep.count("degree/equality_asserted", 1);
+                    if o != dsum {
+                        ok = false;
+                        rep.violation(
+                            &sig("product-degree"),
+                            c.to_json().set("form", form),
+                            format!("{} ({}): order of the product is {} but order(a)+order(b) = {} and the exact leading coefficient {:e}{:+e}i exceeds tolerance {:e} + rounding bound {:e}", form, fld, o, dsum, lead.re, lead.im, ta, K_PRODUCT * u),
+                        );
+                    }
+                } else {
+                    rep.count("degree/equality_not_asserted(leading term within tolerance+rounding)", 1);
+                    if o < dsum {
+                        rep.count("degree/leading_term_purged_legitimately", 1);
+                    }
+                }
+                if ok && small {
+                    rep.nontrivial(c.hash().s(form).0);
+                }
+                prods.push((form, Some(p)));
+            }
+            Guarded::Panic(m, l) => {
+                rep.violation(&sig("panic"), c.to_json().set("form", form), format!("{} ({}) panicked: '{}' at {}", form, fld, m, l));
+                prods.push((form, None));
+            }
+            Guarded::Budget => prods.push((form, None)),
+        }
+    }
+    if !small {
+        rep.nontrivial(c.hash().0);
+    }
+    // all forms agree with each other
+    if let Some((f0, Some(p0))) = prods.first().map(|(f, p)| (*f, p.as_ref())) {
+        for (f, p) in prods.iter().skip(1) {
+            if let Some(p) = p {
+                let top = p.order().max(p0.order()) + 2;
+                let lo = p.order().min(p0.order());
+                for i in 0..top {
+                    let d = (p.get_coefficient(i).to_c() - p0.get_coefficient(i).to_c()).norm();
+                    let al = if i > lo { allow_a } else { 0.0 };
+                    if u > 0.0 {
+                        rep.max("mul_forms_disagreement_over_unit", (d - al).max(0.0) / u);
+                    }
+                    if !(d <= K_PRODUCT * u + al) {
+                        rep.violation("mul/forms-disagree", c.to_json().set("form", *f).set("other_form", f0), format!("{} and {} ({}) differ in the coefficient of x^{} by {:e} > {:e}", f, f0, fld, i, d, K_PRODUCT * u + al));
+                        break;
+                    }
+                }
+            }
+        }
+    }
+    // commutativity
+    let ab = prods.iter().find(|(f, _)| *f == "&a*&b").and_then(|(_, p)| p.clone());
+    rep.eval();
+    match guard(|| &pb * &pa) {
+        Guarded::Ok(ba) => {
+            let cmp = cmp_coeffs(&ba, &exact, &u_mul, K_PRODUCT, allow_b);
+            rep.max(&maxname, cmp.worst);
+            if let Some(d) = cmp.bad {
+                rep.violation(&sig("product-coefficients"), c.to_json().set("form", "&b*&a"), format!("&b*&a ({}): {}", fld, d));
+            }
+            if ba.order() > dsum {
+                rep.violation(&sig("product-degree"), c.to_json().set("form", "&b*&a"), format!("&b*&a ({}): order {} exceeds order(a)+order(b) = {}", fld, ba.order(), dsum));
+            }
+            if let Some(ab) = &ab {
+                let top = ab.order().max(ba.order()) + 2;
+                let lo = ab.order().min(ba.order());
+                for i in 0..top {
+                    let d = (ab.get_coefficient(i).to_c() - ba.get_coefficient(i).to_c()).norm();
+                    let al = if i > lo { allow_a.max(allow_b) } else { 0.0 };
+                    if u > 0.0 {
+                        rep.max("commutativity_defect_over_unit", (d - al).max(0.0) / u);
+                    }
+                    if !(d <= 2.0 * K_PRODUCT * u + al) {
+                        rep.violation("mul/not-commutative", c.to_json(), format!("a*b and b*a ({}) differ in the coefficient of x^{} by {:e} > {:e}", fld, i, d, 2.0 * K_PRODUCT * u + al));
+                        break;
+                    }
+                }
+            }
+        }
+        Guarded::Panic(m, l) => rep.violation(&sig("panic"), c.to_json().set("form", "&b*&a"), format!("&b*&a ({}) panicked: '{}' at {}", fld, m, l)),
+        Guarded::Budget => {}
+    }
+    // pointwise: (a*b)(x) = a(x) b(x) for |x| <= 1
+    if let Some(ab) = &ab {
+        let n1 = (dsum + 1) as f64;
+        let unit_pt = n1 * (u + EPS * norm1(&c.a) * norm1(&c.b));
+        for x in &c.xs {
+            rep.eval();
+            let xn = N::from_c(*x);
+            match guard(|| ab.evaluate(xn)) {
+                Guarded::Ok(v) => {
+                    let r = eval_ref(&c.a, *x) * eval_ref(&c.b, *x);
+                    let d = (v.to_c() - r).norm();
+                    let floor = n1 * allow_a;
+                    if unit_pt > 0.0 {
+                        rep.max("pointwise_defect_over_unit", (d - floor).max(0.0) / unit_pt);
+                    }
+                    rep.count("pointwise_checks", 1);
+                    if !(d <= K_POINTWISE * unit_pt + floor) {
+                        rep.violation("mul/pointwise", c.to_json().set("x", cj(*x)), format!("(a*b)(x) = {:e}{:+e}i but a(x)b(x) = {:e}{:+e}i at x = {:e}{:+e}i ({}): difference {:e} > {:e}", v.to_c().re, v.to_c().im, r.re, r.im, x.re, x.im, fld, d, K_POINTWISE * unit_pt + floor));
+                    }
+                }
+                Guarded::Panic(m, l) => rep.violation("mul/panic", c.to_json(), format!("evaluate of the product panicked: '{}' at {}", m, l)),
+                Guarded::Budget => {}
+            }
+        }
+    }
+    if rep.wants_sample() && la <= 6 && lb <= 6 && !small {
+        let got = ab.as_ref().map(|p| pj(c.complex, &p.get_coefficients().iter().rev().map(|v| v.to_c()).collect::<Vec<_>>())).unwrap_or(J::Null);
+        rep.sample(c.to_json().set("path", path).set("exact_product", pj(c.complex, &exact)).set("library_product(&a*&b)", got).set("unit", u));
+    }
+}
+
+fn run_pair_dyn(rep: &mut Report, c: &Pair) {
+    if c.complex {
+        run_pair::<C64>(rep, c)
+    } else {
+        run_pair::<f64>(rep, c)
+    }
+}
+
+fn pick_tol(rng: &mut Rng) -> Option<f64> {
+    match rng.below(20) {
+        0 => Some(0.0),
+        1 => Some(1e-14),
+        2 => Some(1e-13),
+        3 => Some(1e-12),
+        4 => Some(1e-8),
+        5 => Some(1e-6),
+        6 => Some(1e-10),
+        _ => None,
+    }
+}
+
+fn pick_degree(rng: &mut Rng) -> usize {
+    match rng.below(4) {
+        0 => rng.below(4),
+        1 => {
+            let p = *rng.pick(&[2usize, 4, 8, 16, 32, 64, 128]);
+            (p + rng.below(3)).saturating_sub(1).min(128)
+        }
+        _ => rng.below(129),
+    }
+}
+
+fn gen_pair(rng: &mut Rng, complex: bool, da: usize, db: usize, plain: bool) -> Pair {
+    let tol_a = if plain { None } else { pick_tol(rng) };
+    let tol_b = if plain || rng.chance(0.7) { None } else { pick_tol(rng) };
+    let (mut a, sa) = gen_poly(rng, complex, da);
+    let (mut b, sb) = gen_poly(rng, complex, db);
+    let mut shape_a = sa.to_string();
+    let mut shape_b = sb.to_string();
+    if !plain {
+        shape_a.push_str(decorate(rng, complex, &mut a, tol_a.unwrap_or(DEFAULT_TOL)));
+        shape_b.push_str(decorate(rng, complex, &mut b, tol_a.unwrap_or(DEFAULT_TOL)));
+    }
+    let s = match rng.below(10) {
+        0 => C64::new(1.0, 0.0),
+        1 => C64::new(-1.0, 0.0),
+        2 => C64::new(0.0, 0.0),
+        3 if complex => C64::new(0.0, 1.0),
+        _ => rand_scalar(rng, complex, -3.0, 3.0),
+    };
+    let xs = (0..2).map(|_| rand_point(rng, complex, 1.0)).collect();
+    Pair { complex, a, b, tol_a, tol_b, from_slice: rng.bool(), s, xs, shape_a, shape_b }
+}
+
+const SPARSE_POWERS: [usize; 12] = [2, 3, 5, 15, 31, 32, 63, 64, 96, 127, 128, 100];
+const ANCHOR_LENS: [usize; 14] = [1, 2, 3, 4, 5, 8, 9, 16, 17, 33, 64, 65, 128, 129];
+
+fn fixed_pairs() -> Vec<Pair> {
+    let c = |re: f64, im: f64| C64::new(re, im);
+    let mk = |complex: bool, a: Vec<C64>, b: Vec<C64>| Pair { complex, a, b, tol_a: None, tol_b: None, from_slice: false, s: c(2.5, if complex { -0.5 } else { 0.0 }), xs: vec![c(0.5, 0.0), c(-1.0, 0.0)], shape_a: "fixed".into(), shape_b: "fixed".into() };
+    vec![
+        // (x^2 - 1) x, the repository's own example
+        mk(false, vec![c(-1.0, 0.0), c(0.0, 0.0), c(1.0, 0.0)], vec![c(0.0, 0.0), c(1.0, 0.0)]),
+        // (x^2 - 1)(x^2 + 2x + 3) through the FFT
+        mk(false, vec![c(-1.0, 0.0), c(0.0, 0.0), c(1.0, 0.0)], vec![c(3.0, 0.0), c(2.0, 0.0), c(1.0, 0.0)]),
+        // complex quadratics with non-symmetric imaginary parts (conjugation shows)
+        mk(true, vec![c(3.0, 0.0), c(0.0, 2.0), c(1.0, 1.0)], vec![c(0.0, 1.0), c(1.0, 0.0), c(2.0, -1.0)]),
+        // purely imaginary times purely imaginary
+        mk(true, vec![c(0.0, 1.0), c(0.0, 2.0), c(0.0, 3.0), c(0.0, 4.0)], vec![c(0.0, -1.0), c(0.0, 1.0), c(0.0, 5.0)]),
+        // operands with stored leading zeros
+        mk(false, vec![c(1.0, 0.0), c(2.0, 0.0), c(3.0, 0.0), c(0.0, 0.0), c(0.0, 0.0)], vec![c(1.0, 0.0), c(-1.0, 0.0), c(1.0, 0.0), c(0.0, 0.0)]),
+        // x^7 - 2 times x^8 + 3 (sparse, crosses the 16 -> 32 padding)
+        mk(false, { let mut v = vec![c(0.0, 0.0); 8]; v[0] = c(-2.0, 0.0); v[7] = c(1.0, 0.0); v }, { let mut v = vec![c(0.0, 0.0); 9]; v[0] = c(3.0, 0.0); v[8] = c(1.0, 0.0); v }),
+        // large norms against the default tolerance (FFT noise above 1e-10)
+        mk(false, (0..40).map(|k| c(900.0 - 7.0 * k as f64, 0.0)).collect(), (0..50).map(|k| c(-800.0 + 11.0 * k as f64, 0.0)).collect()),
+        mk(true, (0..40).map(|k| c(900.0 - 7.0 * k as f64, 300.0 + k as f64)).collect(), (0..50).map(|k| c(-800.0 + 11.0 * k as f64, 5.0 * k as f64)).collect()),
+    ]
+}
+
+// ------------------------------------------------------------------ dft cases
+
+#[derive(Clone)]
+struct DftCase {
+    complex: bool,
+    c: Vec<C64>,
+    size: usize,
+    tol: Option<f64>,
+    idft_tol: f64,
+    shape: String,
+}
+impl DftCase {
+    fn to_json(&self) -> J {
+        J::obj()
+            .set("field", field_name(self.complex))
+            .set("polynomial", pj(self.complex, &self.c))
+            .set("tolerance", tolj(self.tol))
+            .set("dft_size_argument", self.size)
+            .set("idft_tolerance_argument", self.idft_tol)
+            .set("shape", self.shape.as_str())
+    }
+    fn hash(&self) -> u64 {
+        hash_poly(CaseHash::new("c11-dft").u(self.complex as u64), &self.c).u(self.size as u64).f(self.idft_tol).0
+    }
+}
+
+/// exp(2 pi i m / n) for n a power of two, by exact quadrant reduction
+fn twiddles(n: usize) -> Vec<C64> {
+    let mut t = Vec::with_capacity(n);
+    for m in 0..n {
+        let v = if n < 4 {
+            // n = 1: 1; n = 2: 1, -1
+            if m == 0 {
+                C64::new(1.0, 0.0)
+            } else {
+                C64::new(-1.0, 0.0)
+            }
+        } else {
+            let q = m / (n / 4);
+            let r = m % (n / 4);
+            let ang = 2.0 * std::f64::consts::PI * (r as f64) / (n as f64);
+            let (s, c) = if r == 0 { (0.0, 1.0) } else { ang.sin_cos() };
+            match q {
+                0 => C64::new(c, s),
+                1 => C64::new(-s, c),
+                2 => C64::new(-c, -s),
+                _ => C64::new(s, -c),
+            }
+        };
+        t.push(v);
+    }
+    t
+}
+
+fn run_dft<N: Sc>(rep: &mut Report, c: &DftCase, sample_rng: &mut Rng) {
+    let p: Polynomial<N> = build(&c.c, c.tol, false);
+    let l = c.c.len();
+    let n = nextpow2(c.size);
+    let fld = N::NAME;
+    rep.eval();
+    rep.count(&format!("dft/N={}", n), 1);
+    rep.count(&format!("dft/cases/{}", fld), 1);
+    if c.size != n {
+        rep.count("dft/size_not_a_power_of_two", 1);
+    }
+    if n > nextpow2(l) {
+        rep.count("dft/size_beyond_minimal_padding", 1);
+    }
+    let out = match guard(|| p.dft(c.size)) {
+        Guarded::Ok(v) => v,
+        Guarded::Panic(m, loc) => {
+            rep.violation("dft/panic", c.to_json(), format!("dft({}) of a {}-coefficient {} polynomial panicked: '{}' at {}", c.size, l, fld, m, loc));
+            return;
+        }
+        Guarded::Budget => return,
+    };
+    if out.len() != n {
+        rep.violation("dft/length", c.to_json(), format!("dft({}) returned {} values, the smallest power of two >= size is {}", c.size, out.len(), n));
+        return;
+    }
+    let log2n = (n as f64).log2().max(1.0);
+    let n1 = norm1(&c.c);
+    let unit = EPS * log2n * n1;
+    let tw = twiddles(n);
+    // which k to verify: all of them unless that costs more than ~16k complex products
+    let ks: Vec<usize> = if n * l <= 16384 {
+        (0..n).collect()
+    } else {
+        let mut v = vec![0, 1, 2, n / 4, n / 2 - 1, n / 2, n / 2 + 1, n - 2, n - 1];
+        let extra = (16384 / l).max(24);
+        for _ in 0..extra {
+            v.push(sample_rng.below(n));
+        }
+        v.sort_unstable();
+        v.dedup();
+        v
+    };
+    let mut worst = 0.0f64;
+    for &k in &ks {
+        let mut acc = CAcc::default();
+        for (j, cj_) in c.c.iter().enumerate() {
+            acc.add_prod(*cj_, tw[(j * k) % n]);
+        }
+        let r = acc.val();
+        let d = (out[k] - r).norm();
+        if unit > 0.0 {
+            worst = worst.max(d / unit);
+        }
+        if !(d <= K_DFT * unit) {
+            let conj_r = {
+                let mut acc = CAcc::default();
+                for (j, cj_) in c.c.iter().enumerate() {
+                    acc.add_prod(*cj_, tw[(j * (n - k)) % n]);
+                }
+                acc.val()
+            };
+            let hint = if (out[k] - conj_r).norm() <= K_DFT * unit { " (it equals the value at exp(-2 pi i k/N): opposite convention)" } else { "" };
+            rep.violation("dft/values", c.to_json().set("k", k), format!("dft({})[{}] = {:e}{:+e}i but p(exp(2 pi i {}/{})) = {:e}{:+e}i ({}): difference {:e} > {:e}{}", c.size, k, out[k].re, out[k].im, k, n, r.re, r.im, fld, d, K_DFT * unit, hint));
+            return;
+        }
+    }
+    rep.count("dft/values_checked", ks.len() as i64);
+    rep.max(&format!("dft_err_over_eps.log2N.|c|1/{}", fld), worst);
+    // inverse transform recovers the polynomial
+    rep.eval();
+    let back = match guard(|| Polynomial::<N>::idft(&out, c.idft_tol)) {
+        Guarded::Ok(p) => p,
+        Guarded::Panic(m, loc) => {
+            rep.violation("idft/panic", c.to_json(), format!("idft of the {} dft values panicked: '{}' at {}", n, m, loc));
+            return;
+        }
+        Guarded::Budget => return,
+    };
+    let u_idft = |_i: usize| unit;
+    let cmp = cmp_coeffs(&back, &c.c, &u_idft, K_IDFT, tol_allow(c.complex, c.idft_tol));
+    rep.max(&format!("idft_roundtrip_err_over_eps.log2N.|c|1/{}", fld), cmp.worst);
+    rep.count("idft/roundtrips", 1);
+    if let Some(d) = cmp.bad {
+        rep.violation("idft/roundtrip", c.to_json(), format!("idft(dft(p, {}), {:e}) does not recover p ({}): {}", c.size, c.idft_tol, fld, d));
+        return;
+    }
+    rep.nontrivial(c.hash());
+    if rep.wants_sample() && l <= 5 && n <= 8 {
+        rep.sample(c.to_json().set("N", n).set("dft", J::Arr(out.iter().map(|v| cj(*v)).collect())).set("worst_err_over_unit", worst));
+    }
+}
+
+fn run_dft_dyn(rep: &mut Report, c: &DftCase, rng: &mut Rng) {
+    if c.complex {
+        run_dft::<C64>(rep, c, rng)
+    } else {
+        run_dft::<f64>(rep, c, rng)
+    }
+}
+
+fn dft_sizes(l: usize) -> Vec<usize> {
+    let p = nextpow2(l);
+    let mut v = vec![l, p, (p + 1).min(1024), (2 * p).min(1024), 1000, 1024];
+    v.retain(|s| *s >= l);
+    v.sort_unstable();
+    v.dedup();
+    v
+}
+
+const DFT_ANCHOR_LENS: [usize; 18] = [1, 2, 3, 4, 5, 7, 8, 9, 15, 16, 17, 31, 33, 63, 64, 65, 128, 129];
+
+// ------------------------------------------------------------------ stages
+
+pub fn stages(ctx: &Ctx) -> Vec<Stage> {
+    let seed = ctx.seed;
+    let tier = ctx.tier;
+    let mut st = vec![];
+    let fixed = fixed_pairs();
+    let nfixed = fixed.len() as u64;
+    let grid = (ANCHOR_LENS.len() * ANCHOR_LENS.len()) as u64;
+    // anchors (seed independent): hand-written pairs, then every (len a, len b) of the grid in both fields
+    st.push(Stage::new("pair-anchors", nfixed + 2 * grid, move |i, rep| {
+        if i < nfixed {
+            run_pair_dyn(rep, &fixed[i as usize]);
+            return;
+        }
+        let j = i - nfixed;
+        let complex = j >= grid;
+        let g = (j % grid) as usize;
+        let (la, lb) = (ANCHOR_LENS[g / ANCHOR_LENS.len()], ANCHOR_LENS[g % ANCHOR_LENS.len()]);
+        let mut rng = Rng::for_case(0xC11, "c11-pair-anchor", j);
+        let c = gen_pair(&mut rng, complex, la - 1, lb - 1, true);
+        run_pair_dyn(rep, &c);
+    }));
+    // sparse anchors: (alpha x^j + gamma)(beta x^k + delta): all of the norm sits in single
+    // coefficients, the worst case for the accumulated twiddle-factor error of an FFT
+    let nsp = (SPARSE_POWERS.len() * SPARSE_POWERS.len()) as u64;
+    st.push(Stage::new("pair-sparse-anchors", 4 * nsp, move |i, rep| {
+        let complex = i % 2 == 1;
+        let with_const = (i / 2) % 2 == 1;
+        let g = (i / 4) as usize;
+        let (j, k) = (SPARSE_POWERS[g / SPARSE_POWERS.len()], SPARSE_POWERS[g % SPARSE_POWERS.len()]);
+        let mut rng = Rng::for_case(0xC11, "c11-sparse-anchor", i);
+        let mut a = vec![C64::new(0.0, 0.0); j + 1];
+        let mut b = vec![C64::new(0.0, 0.0); k + 1];
+        a[j] = rand_scalar(&mut rng, complex, -1.0, 1.0);
+        b[k] = rand_scalar(&mut rng, complex, -1.0, 1.0);
+        if with_const {
+            a[0] = rand_scalar(&mut rng, complex, -3.0, 0.0);
+            b[0] = rand_scalar(&mut rng, complex, -3.0, 0.0);
+        }
+        let c = Pair { complex, a, b, tol_a: None, tol_b: None, from_slice: false, s: C64::new(3.0, 0.0), xs: vec![rand_point(&mut rng, complex, 1.0)], shape_a: "monomial".into(), shape_b: "monomial".into() };
+        run_pair_dyn(rep, &c);
+    }));
+    st.push(Stage::new("pairs", tier.pick(6_000, 300_000), move |i, rep| {
+        let mut rng = Rng::for_case(seed, "c11-pairs", i);
+        let complex = i % 2 == 1;
+        let da = pick_degree(&mut rng);
+        let db = if rng.chance(0.15) { da } else { pick_degree(&mut rng) };
+        let c = gen_pair(&mut rng, complex, da, db, false);
+        run_pair_dyn(rep, &c);
+    }));
+    // dft anchors: every anchor length x every boundary size x both fields
+    let mut dft_anchor: Vec<(usize, usize, bool)> = vec![];
+    for &l in DFT_ANCHOR_LENS.iter() {
+        for s in dft_sizes(l) {
+            dft_anchor.push((l, s, false));
+            dft_anchor.push((l, s, true));
+        }
+    }
+    let nda = dft_anchor.len() as u64;
+    st.push(Stage::new("dft-anchors", nda, move |i, rep| {
+        let (l, size, complex) = dft_anchor[i as usize];
+        let mut rng = Rng::for_case(0xC11, "c11-dft-anchor", i);
+        let (c, shape) = gen_poly(&mut rng, complex, l - 1);
+        let case = DftCase { complex, c, size, tol: None, idft_tol: DEFAULT_TOL, shape: shape.into() };
+        run_dft_dyn(rep, &case, &mut rng);
+    }));
+    st.push(Stage::new("dft", tier.pick(1_500, 60_000), move |i, rep| {
+        let mut rng = Rng::for_case(seed, "c11-dft", i);
+        let complex = i % 2 == 1;
+        let l = pick_degree(&mut rng) + 1;
+        let size = match rng.below(5) {
+            0 => l,
+            1 => nextpow2(l),
+            2 => *rng.pick(&dft_sizes(l)),
+            _ => l + rng.below(1024 - l + 1),
+        };
+        let tol = pick_tol(&mut rng);
+        let (mut c, shape) = gen_poly(&mut rng, complex, l - 1);
+        let mut shape = shape.to_string();
+        let idft_tol: f64 = *rng.pick(&[1e-10, 1e-10, 1e-12, 1e-8, 1e-14, 0.0]);
+        shape.push_str(decorate(&mut rng, complex, &mut c, idft_tol.max(1e-14)));
+        let case = DftCase { complex, c, size, tol, idft_tol, shape };
+        run_dft_dyn(rep, &case, &mut rng);
+    }));
+    st
+}
+
+pub fn thresholds(ctx: &Ctx, rep: &Report) -> Vec<Threshold> {
+    let mut t = vec![];
+    let q = |a: f64, b: f64| ctx.tier.pick(a, b);
+    for fld in ["f64", "c64"] {
+        t.push(Threshold { what: format!("operand pairs multiplied through the FFT path ({})", fld), required: q(1_500.0, 60_000.0), observed: rep.counter(&format!("mul/fft/{}", fld)) as f64 });
+        t.push(Threshold { what: format!("operand pairs multiplied through the linear-factor path ({})", fld), required: q(100.0, 3_000.0), observed: rep.counter(&format!("mul/linear/{}", fld)) as f64 });
+        t.push(Threshold { what: format!("operand pairs multiplied through the scalar path ({})", fld), required: q(100.0, 3_000.0), observed: rep.counter(&format!("mul/scalar/{}", fld)) as f64 });
+        t.push(Threshold { what: format!("dft cases ({})", fld), required: q(500.0, 20_000.0), observed: rep.counter(&format!("dft/cases/{}", fld)) as f64 });
+    }
+    for sym in ["+", "-", "*"] {
+        for form in ["a?b", "&a?b", "a?&b", "&a?&b", "a?=b", "a?=&b"] {
+            let f = form.replace('?', sym);
+            t.push(Threshold { what: format!("executions of operator form {}", f), required: q(5_000.0, 200_000.0), observed: rep.counter(&format!("form/{}", f)) as f64 });
+        }
+    }
+    for sym in ["+", "-", "*", "/"] {
+        for form in ["a?s", "&a?s", "a?=s"] {
+            let f = form.replace('?', sym);
+            t.push(Threshold { what: format!("executions of scalar operator form {}", f), required: q(4_000.0, 150_000.0), observed: rep.counter(&format!("form/{}", f)) as f64 });
+        }
+    }
+    for f in ["-a", "-&a"] {
+        t.push(Threshold { what: format!("executions of {}", f), required: q(5_000.0, 200_000.0), observed: rep.counter(&format!("form/{}", f)) as f64 });
+    }
+    t.push(Threshold { what: "products whose degree was required to equal the sum of the degrees".into(), required: q(20_000.0, 1_000_000.0), observed: rep.counter("degree/equality_asserted") as f64 });
+    t.push(Threshold { what: "products whose leading term lay within tolerance + rounding (equality not required)".into(), required: q(100.0, 5_000.0), observed: rep.counter("degree/equality_not_asserted(leading term within tolerance+rounding)") as f64 });
+    t.push(Threshold { what: "pointwise (a*b)(x) = a(x)b(x) comparisons".into(), required: q(8_000.0, 400_000.0), observed: rep.counter("pointwise_checks") as f64 });
+    t.push(Threshold { what: "dft transforms of length 1024".into(), required: q(200.0, 8_000.0), observed: rep.counter("dft/N=1024") as f64 });
+    t.push(Threshold { what: "dft cases whose size argument is not a power of two".into(), required: q(400.0, 15_000.0), observed: rep.counter("dft/size_not_a_power_of_two") as f64 });
+    t.push(Threshold { what: "dft values compared with direct evaluation at roots of unity".into(), required: q(100_000.0, 4_000_000.0), observed: rep.counter("dft/values_checked") as f64 });
+    t.push(Threshold { what: "idft(dft(p)) round trips".into(), required: q(1_200.0, 50_000.0), observed: rep.counter("idft/roundtrips") as f64 });
+    t
 }
